@@ -251,9 +251,11 @@ const PREFIXES: &[(&str, i32)] = &[
 ];
 
 fn pool(ctx: &Ctx, rng: &mut Rng) -> Vec<f64> {
-    let mut p = vec![1.0, 0.0, -1.0, 1e-12, 1e12, 0.5, 3.0, 1e-6, 1e6, -2.5e-7, 123.456, 1e3, 1e-3, 1e9, 1e-9, -273.15, 7.3, -1e12];
+    // quick: the ends and the middle of 1e-12..1e12, zero, negatives, fractions
+    let mut p = vec![1.0, 0.0, -1.0, 1e-12, 1e12, 0.5, 3.0, -2.5e-7, 123.456, 1e6];
     if ctx.thorough() {
-        p.extend_from_slice(&[-0.0, 2.0, 10.0, 100.0, 0.1, 1.0 / 3.0, -40.0, 32.0, 273.15, 98.6, 1e-10, 4.2e7, -6.02e11, 9.99e11, 1.000000000001e-12]);
+        p.extend_from_slice(&[1e-6, 1e3, 1e-3, 1e9, 1e-9, -273.15, 7.3, -1e12,
+            -0.0, 2.0, 10.0, 100.0, 0.1, 1.0 / 3.0, -40.0, 32.0, 273.15, 98.6, 1e-10, 4.2e7, -6.02e11, 9.99e11, 1.000000000001e-12]);
         for _ in 0..12 {
             // log-uniform magnitude in [1e-12, 1e12], random sign
             let e = (rng.next() % 24_000) as f64 / 1000.0 - 12.0;
@@ -267,6 +269,9 @@ fn pool(ctx: &Ctx, rng: &mut Rng) -> Vec<f64> {
 pub fn run(ctx: &Ctx, rep: &mut Report) {
     let mut rng = Rng::new(ctx.seed);
     let mut model = Model::spawn(&ctx.model_path);
+    let t0 = std::time::Instant::now();
+    let mut phases: Vec<String> = vec![];
+    let mut mark = |name: &str, phases: &mut Vec<String>| phases.push(format!("{}@{:.1}s", name, t0.elapsed().as_secs_f64()));
     let all = units::get_all_units();
     let n = all.len();
     let lowers: Vec<Vec<String>> = all.iter().map(|u| u.identifiers.iter().map(|i| i.to_lowercase()).collect()).collect();
@@ -363,6 +368,7 @@ pub fn run(ctx: &Ctx, rep: &mut Report) {
     rep.counters.insert("scalar-values-lowercased".into(), scalars);
     rep.evaluations += scalars;
 
+    mark("table+lowercase", &mut phases);
     // ================================================================= resolve: queries
     let mut queries: Vec<String> = vec![];
     for u in &all {
@@ -458,6 +464,7 @@ pub fn run(ctx: &Ctx, rep: &mut Report) {
     let xs = pool(ctx, &mut rng);
     let is_temp = |i: usize| kind_of(&all[i]) == "temperature";
 
+    mark("resolve", &mut phases);
     // ================================================================= ORACLE: aliases behave identically
     for i in 0..n {
         let partner = cats.iter().find(|c| c.contains(&i)).map(|c| c[0]).unwrap();
@@ -477,6 +484,7 @@ pub fn run(ctx: &Ctx, rep: &mut Report) {
         }
     }
 
+    mark("aliases", &mut phases);
     // ================================================================= pairs within each category
     // conv[(a,b)][k] = convert(xs[k], a, b)
     let mut conv: HashMap<(usize, usize), Vec<Cv>> = HashMap::new();
@@ -519,7 +527,7 @@ pub fn run(ctx: &Ctx, rep: &mut Report) {
                         if !(y == x) {
                             inexact_self += 1;
                             if first_inexact.is_none() {
-                                first_inexact = Some(format!("{} = {:e} (differs in the last place)", desc, y));
+                                first_inexact = Some(format!("{} = {:e}", desc, y));
                             }
                             if exact_expected {
                                 rep.finding("oracle", "self-not-identity", &desc, &format!("got {:e}; c = 1.0 / zero / kelvin must be exact", y), "c17.self-not-identity");
@@ -548,6 +556,7 @@ pub fn run(ctx: &Ctx, rep: &mut Report) {
         rep.notes.push(format!("self-conversion is not bit-exact for {} (unit, value) cases, all within two roundings; first: {}", inexact_self, w));
     }
 
+    mark("pairs", &mut phases);
     // ================================================================= exact-rational distance (assumption RoundingModel)
     {
         let stride = if ctx.thorough() { 1 } else { 3 };
@@ -564,7 +573,10 @@ pub fn run(ctx: &Ctx, rep: &mut Report) {
                         cnt += 1;
                         let desc = format!("convert({:e}, {:?}, {:?}) against exact rationals", x, primary[a], primary[b]);
                         let ok = if m == "(inf)" {
-                            y == f64::INFINITY
+                            // a reciprocal unit sent 0 to +∞: outside the rational model (the
+                            // double code may come back to a finite value, e.g. mpg → imp mpg)
+                            rep.count("exact-q.outside-rational-model");
+                            x == 0.0
                         } else if let Some(h) = m.strip_prefix("(ok ").and_then(|s| s.strip_suffix(")")) {
                             let q = f64::from_bits(u64::from_str_radix(h, 16).unwrap_or(0));
                             close(y, q, is_temp(a), 8.0, &[x])
@@ -582,6 +594,7 @@ pub fn run(ctx: &Ctx, rep: &mut Report) {
         rep.evaluations += cnt;
     }
 
+    mark("exact-q", &mut phases);
     // ================================================================= ORACLE: triangle law
     {
         let per_triple = ctx.budget(1, 4);
@@ -614,6 +627,7 @@ pub fn run(ctx: &Ctx, rep: &mut Report) {
         rep.counters.insert("triples".into(), triples);
     }
 
+    mark("triangle", &mut phases);
     // ================================================================= ORACLE: categories never mix
     {
         let mut pairs: Vec<(usize, usize)> = vec![];
@@ -660,6 +674,7 @@ pub fn run(ctx: &Ctx, rep: &mut Report) {
         rep.counters.insert("cross-category-pairs".into(), pairs.len() as u64);
     }
 
+    mark("cross-category", &mut phases);
     // ================================================================= ORACLE: unknown / ambiguous are errors in `convert`
     {
         let good = primary[cats[0][0]];
@@ -693,6 +708,7 @@ pub fn run(ctx: &Ctx, rep: &mut Report) {
         }
     }
 
+    mark("unresolved", &mut phases);
     // ================================================================= ORACLE: metric prefixes
     {
         let mut cnt = 0u64;
@@ -730,6 +746,7 @@ pub fn run(ctx: &Ctx, rep: &mut Report) {
         }
     }
 
+    mark("prefixes", &mut phases);
     // ================================================================= ORACLE: the `convert` built-in is `units::convert`
     {
         let mut cases: Vec<(f64, String, String)> = vec![
@@ -792,5 +809,7 @@ pub fn run(ctx: &Ctx, rep: &mut Report) {
         rep.case("convert(1, \"km\", \"m\")", true);
     }
 
+    mark("builtin", &mut phases);
+    rep.notes.push(format!("phases (cumulative): {}", phases.join(" ")));
     rep.model_requests = model.requests;
 }
